@@ -1,4 +1,5 @@
 import RosuModel.Props.C15ShiftOn
+import RosuModel.Props.C15ShiftLinesOn
 import RosuModel.Lemmas.FloatIntExact
 import RosuModel.Model.Cmds.Curve
 namespace Rosu.C15
@@ -169,6 +170,172 @@ example : ((finalizeObjects GameMode.osu (1.4 : Float) sfState.timingPoints.fini
       (postProcessBreaks sfState.events.breaks [sfSpinner 100 50, sfCircle 260, sfHold 300 10, sfCircle 500] 0)
       emptyBuffers).toOption.map (fun hs => hs.map (fun h => (kindNewCombo h.kind, h.samples.map (·.volume))))) =
     some [(false, [60]), (true, [60]), (false, []), (false, [30])] := by decide +kernel
+
+/-! ## headline, line level: decoding two bodies whose integer time fields differ by `k` -/
+
+/-- **shift invariance of the `HitObjects` decoder for IEEE doubles, integer times, no sliders**: two bodies whose
+`[TimingPoints]`, `[Events]`, `[HitObjects]` lines have identical fields except time fields that parse (model parser) to an
+integer double `t`, `|t| < 2^51`, resp. to `t + k` (`k` an integer, `|k| < 2^51`; or are rejected in both), decode to the same
+`HitObjects` with every object, break and control-point time `k` later — provided the times the finaliser derives from the
+parsed objects (`start + 5`, `start + duration (+ 5)`) are such integers too. No law hypothesis. -/
+theorem shift_invariant_float_int (k : Int) (hk : k.natAbs < 2 ^ 51) (ls ls' : SecLines)
+    (h : LinesShiftOn IntTime (Float.ofInt k) ls ls')
+    (hobj : ∀ o ∈ (runLines ls (HitObjectsState.create : HitObjectsState Float Float32)).core.hitObjects, ObjIn IntTime o)
+    (hns : ∀ o ∈ (runLines ls (HitObjectsState.create : HitObjectsState Float Float32)).core.hitObjects, isSlider o = false) :
+    (runLines ls' (HitObjectsState.create : HitObjectsState Float Float32)).finish =
+      ((runLines ls (HitObjectsState.create : HitObjectsState Float Float32)).finish).map (shiftHitObjects (Float.ofInt k)) :=
+  shift_invariant_on (shiftLawsOn_intTime k hk) ls ls' h hobj hns
+
+/-- … **sliders included**, slider samples left out of the comparison. -/
+theorem shift_invariant_float_int_erased (k : Int) (hk : k.natAbs < 2 ^ 51) (ls ls' : SecLines)
+    (h : LinesShiftOn IntTime (Float.ofInt k) ls ls')
+    (hobj : ∀ o ∈ (runLines ls (HitObjectsState.create : HitObjectsState Float Float32)).core.hitObjects, ObjIn IntTime o) :
+    ((runLines ls' (HitObjectsState.create : HitObjectsState Float Float32)).finish).map eraseHO =
+      ((runLines ls (HitObjectsState.create : HitObjectsState Float Float32)).finish).map
+        (fun ho => eraseHO (shiftHitObjects (Float.ofInt k) ho)) :=
+  shift_invariant_on_erased (shiftLawsOn_intTime k hk) ls ls' h hobj
+
+/-- the `Beatmap` decoder. -/
+theorem beatmap_shift_invariant_float_int (k : Int) (hk : k.natAbs < 2 ^ 51) (version : Int) (ls ls' : SecLines)
+    (h : LinesShiftOn IntTime (Float.ofInt k) ls ls')
+    (hobj : ∀ o ∈ (runBeatmapLines ls (BeatmapState.create version : BeatmapState Float Float32)).hitObjects.core.hitObjects,
+      ObjIn IntTime o)
+    (hns : ∀ o ∈ (runBeatmapLines ls (BeatmapState.create version : BeatmapState Float Float32)).hitObjects.core.hitObjects,
+      isSlider o = false) :
+    (runBeatmapLines ls' (BeatmapState.create version : BeatmapState Float Float32)).finish =
+      ((runBeatmapLines ls (BeatmapState.create version : BeatmapState Float Float32)).finish).map
+        (shiftBeatmap (Float.ofInt k)) :=
+  beatmap_shift_invariant_on (shiftLawsOn_intTime k hk) version ls ls' h hobj hns
+
+/-! ### a decidable sufficient condition for `ObjIn IntTime`, and a worked instance on real text lines -/
+
+/-- `x` is the double of its own truncation (an `i32`, so far below `2^49`). -/
+def smallIntB (x : Float) : Bool :=
+  decide ((Scalar.toI32 x : Int).natAbs < 2 ^ 49) && decide (x = Float.ofInt (Scalar.toI32 x))
+
+def objSmallB (h : HitObject Float Float32) : Bool :=
+  smallIntB h.startTime &&
+    match h.kind with
+    | .spinner c => smallIntB c.duration
+    | .hold c => smallIntB c.duration
+    | _ => true
+
+theorem objIn_of_smallB (h : HitObject Float Float32) (hb : objSmallB h = true) : ObjIn IntTime h := by
+  unfold objSmallB smallIntB at hb
+  simp only [Bool.and_eq_true, decide_eq_true_eq] at hb
+  obtain ⟨⟨s1, s2⟩, hk⟩ := hb
+  cases hkind : h.kind with
+  | circle c => exact objIn_of_small h _ 0 s1 (by decide) s2 (by rw [hkind]; trivial)
+  | slider c => exact objIn_of_small h _ 0 s1 (by decide) s2 (by rw [hkind]; trivial)
+  | spinner c =>
+    rw [hkind] at hk
+    simp only [Bool.and_eq_true, decide_eq_true_eq] at hk
+    exact objIn_of_small h _ _ s1 hk.1 s2 (by rw [hkind]; exact hk.2)
+  | hold c =>
+    rw [hkind] at hk
+    simp only [Bool.and_eq_true, decide_eq_true_eq] at hk
+    exact objIn_of_small h _ _ s1 hk.1 s2 (by rw [hkind]; exact hk.2)
+
+theorem scalarParse_of_floatParse (s : Str) (x : Float) (h : (floatParse s : Option Float) = some x) :
+    (scalarParse s : Except NumErr Float) = .ok x := by
+  have e : (scalarParse s : Except NumErr Float).toOption = floatParse s := scalarParseWithLimits_toOption s _
+  rw [h] at e
+  cases hs : (scalarParse s : Except NumErr Float) with
+  | error err => rw [hs] at e; cases e
+  | ok y => rw [hs] at e; injection e with e; rw [e]
+
+theorem hoRestOn_same (S : Float → Prop) (k : Float) (cls : Option ObjClass) (rest : List Str) (h1 : cls ≠ some .spinner)
+    (h2 : cls ≠ some .hold) : HoRestShiftOn S k cls rest rest := by
+  simp [HoRestShiftOn, h1, h2]
+
+theorem hoRestOn_spinner (S : Float → Prop) (k : Float) (cls : Option ObjClass) (dS dS' : Str) (r2 : List Str)
+    (h : cls = some .spinner) (hp : ParseShiftOn S k dS dS') : HoRestShiftOn S k cls (dS :: r2) (dS' :: r2) := by
+  subst h
+  simp only [HoRestShiftOn, if_true]
+  exact Or.inr ⟨dS, dS', r2, rfl, rfl, hp⟩
+
+theorem hoRestOn_hold (S : Float → Prop) (k : Float) (cls : Option ObjClass) (s s' e e' : Str) (tl ss : List Str)
+    (h : cls = some .hold) (hs : s.isEmpty = false) (hs' : s'.isEmpty = false) (hsp : splitOn ':' s = e :: ss)
+    (hsp' : splitOn ':' s' = e' :: ss) (hp : ParseShiftOn S k e e') : HoRestShiftOn S k cls (s :: tl) (s' :: tl) := by
+  subst h
+  have hne : (some ObjClass.hold = some ObjClass.spinner) = False := by simp
+  simp only [HoRestShiftOn, hne, if_false, if_true]
+  exact Or.inr ⟨s, s', tl, e, e', ss, rfl, rfl, hs, hs', hsp, hsp', hp⟩
+
+def sfBody : SecLines :=
+  [(.general, str "Mode: 0"),
+   (.timingPoints, str "100,500,4,2,0,60,1,0"), (.timingPoints, str "100,-50,4,2,0,40,0,0"),
+   (.timingPoints, str "900,-200,4,3,0,0,0,1 // kiai"),
+   (.events, str "2,500,600"), (.events, str "Sample,700,0,\"a.wav\""),
+   (.hitObjects, str "256,192,1000,128,0,1200:0:0:0:0:"), (.hitObjects, str "256,192,300,1,0"),
+   (.hitObjects, str "256,192,400,12,0,900"),
+   (.hitObjects, str "garbage")]
+
+def sfBody' : SecLines :=
+  [(.general, str "Mode: 0"),
+   (.timingPoints, str "1100,500,4,2,0,60,1,0"), (.timingPoints, str "1100,-50,4,2,0,40,0,0"),
+   (.timingPoints, str "1900,-200,4,3,0,0,0,1 // kiai"),
+   (.events, str "2,1500,1600"), (.events, str "Sample,1700,0,\"a.wav\""),
+   (.hitObjects, str "256,192,2000,128,0,2200:0:0:0:0:"), (.hitObjects, str "256,192,1300,1,0"),
+   (.hitObjects, str "256,192,1400,12,0,1900"),
+   (.hitObjects, str "garbage")]
+
+/-- a time field that the model's `f64` parser reads as the integer `t`, and its partner as `t + 1000`. -/
+theorem sfParse (s s' : Str) (t : Int) (ht : t.natAbs < 2 ^ 51)
+    (h1 : (floatParse s : Option Float) = some (Float.ofInt t))
+    (h2 : (floatParse s' : Option Float) = some (Float.ofInt t + Float.ofInt 1000)) :
+    ParseShiftOn IntTime (Float.ofInt 1000) s s' :=
+  Or.inl ⟨Float.ofInt t, h1, h2, intTime_ofInt t ht⟩
+
+theorem sfTp (line line' timeS timeS' : Str) (tl : List Str) (t : Int) (ht : t.natAbs < 2 ^ 51)
+    (hs : splitOn ',' (trimComment line) = timeS :: tl) (hs' : splitOn ',' (trimComment line') = timeS' :: tl)
+    (h1 : (floatParse timeS : Option Float) = some (Float.ofInt t))
+    (h2 : (floatParse timeS' : Option Float) = some (Float.ofInt t + Float.ofInt 1000)) :
+    TpLineShiftOn IntTime (Float.ofInt 1000) line line' :=
+  ⟨timeS, timeS', tl, hs, hs', Or.inl ⟨Float.ofInt t, scalarParse_of_floatParse _ _ h1, scalarParse_of_floatParse _ _ h2,
+    intTime_ofInt t ht⟩⟩
+
+theorem sfBody_shift : LinesShiftOn IntTime (Float.ofInt 1000) sfBody sfBody' := by
+  refine .cons ⟨rfl, rfl⟩ (.cons ⟨rfl, ?_⟩ (.cons ⟨rfl, ?_⟩ (.cons ⟨rfl, ?_⟩ (.cons ⟨rfl, ?_⟩ (.cons ⟨rfl, ?_⟩
+    (.cons ⟨rfl, ?_⟩ (.cons ⟨rfl, ?_⟩ (.cons ⟨rfl, ?_⟩ (.cons ⟨rfl, ?_⟩ .nil)))))))))
+  · exact sfTp _ _ (str "100") (str "1100") _ 100 (by decide) rfl rfl (by decide +kernel) (by decide +kernel)
+  · exact sfTp _ _ (str "100") (str "1100") _ 100 (by decide) rfl rfl (by decide +kernel) (by decide +kernel)
+  · exact sfTp _ _ (str "900") (str "1900") _ 900 (by decide) rfl rfl (by decide +kernel) (by decide +kernel)
+  · exact Or.inl ⟨str "2", str "500", str "1500", str "600", str "1600", [], rfl, rfl,
+      by rw [if_pos (by decide)]; exact ⟨sfParse _ _ 500 (by decide) (by decide +kernel) (by decide +kernel),
+        sfParse _ _ 600 (by decide) (by decide +kernel) (by decide +kernel)⟩⟩
+  · exact Or.inl ⟨str "Sample", str "700", str "1700", str "0", str "0", _, rfl, rfl, by rw [if_neg (by decide)]⟩
+  · exact Or.inl ⟨_, _, str "1000", str "2000", _, _, _, _, rfl, rfl,
+      sfParse _ _ 1000 (by decide) (by decide +kernel) (by decide +kernel),
+      hoRestOn_hold _ _ _ (str "1200:0:0:0:0:") (str "2200:0:0:0:0:") (str "1200") (str "2200") [] _ (by decide) rfl rfl rfl rfl
+        (sfParse _ _ 1200 (by decide) (by decide +kernel) (by decide +kernel))⟩
+  · exact Or.inl ⟨_, _, str "300", str "1300", _, _, _, _, rfl, rfl,
+      sfParse _ _ 300 (by decide) (by decide +kernel) (by decide +kernel), hoRestOn_same _ _ _ _ (by decide) (by decide)⟩
+  · exact Or.inl ⟨_, _, str "400", str "1400", _, _, _, _, rfl, rfl,
+      sfParse _ _ 400 (by decide) (by decide +kernel) (by decide +kernel),
+      hoRestOn_spinner _ _ _ (str "900") (str "1900") [] (by decide)
+        (sfParse _ _ 900 (by decide) (by decide +kernel) (by decide +kernel))⟩
+  · exact Or.inr ⟨rfl, by decide⟩
+
+/-- **`shift_invariant_float_int` applied to text lines** (IEEE doubles, the model's decimal parser): the second body decodes to
+the first one's result, one second later. The object hypotheses are checked by the kernel on the parsed state. -/
+example : (runLines sfBody' (HitObjectsState.create : HitObjectsState Float Float32)).finish =
+    ((runLines sfBody (HitObjectsState.create : HitObjectsState Float Float32)).finish).map
+      (shiftHitObjects (Float.ofInt 1000)) := by
+  have hall : ((runLines sfBody (HitObjectsState.create : HitObjectsState Float Float32)).core.hitObjects.all
+      (fun o => objSmallB o && !isSlider o)) = true ∧
+      (runLines sfBody (HitObjectsState.create : HitObjectsState Float Float32)).core.hitObjects.length = 3 := by
+    decide +kernel
+  have h := List.all_eq_true.mp hall.1
+  refine shift_invariant_float_int 1000 (by decide) sfBody sfBody' sfBody_shift ?_ ?_
+  · intro o ho
+    have := h o ho
+    simp only [Bool.and_eq_true] at this
+    exact objIn_of_smallB o this.1
+  · intro o ho
+    have := h o ho
+    simp only [Bool.and_eq_true, Bool.not_eq_true'] at this
+    exact this.2
 
 /-! ## the slider clause is FALSE of IEEE doubles, on integer times and a small integer shift
 
